@@ -204,6 +204,41 @@ def traceLocal [BEq α] (arange : Nat → List κ) (d : Data κ α) (dim : Strin
   let r ← d.bracket arange dim (fun _ c => tableFn tbl c) n' newCoord
   .ok (r.addHist name keys)
 
+/-- numpy.correlate(a, v, mode="same") for real sequences of equal length L:
+    full[k] = Σ_j a[j]·v[j − k + L − 1],  same = full[(L−1)/2 : (L−1)/2 + L] -/
+def correlateSame (a v : List α) : List α :=
+  let L := a.length
+  (List.range L).map (fun i =>
+    let k := i + (L - 1) / 2
+    (List.range L).foldl (fun acc j =>
+      -- index into v: j − k + L − 1 (skip when out of range)
+      if j + (L - 1) < k then acc
+      else
+        let q := j + (L - 1) - k
+        if q < v.length then A.add acc (A.mul (a.getD j default) (v.getD q default)) else acc) A.zero)
+
+def argmaxL (xs : List α) : Nat := argBest (fun a b => A.ltα b a) xs
+
+/-- roll by a signed amount (numpy.roll(x, s)) -/
+def rollInt {γ : Type} (xs : List γ) (s : Int) : List γ :=
+  if xs.length = 0 then xs else roll xs (s % (xs.length : Int)).toNat
+
+/-- ndalign(data, dim) over the whole range: every trace is circularly shifted so that the maximum of
+    its cross-correlation with the reference (the LAST trace, without its final point, in magnitude)
+    lines up with that of the first trace -/
+def ndalignCols (cs : List (List α)) : List (List α) :=
+  let temp := cs.map (fun c => (c.dropLast).map A.abs)      -- out[dim, (c[-1], c[0])] drops the last point
+  let ref := temp.getLast?.getD []
+  let refMax : Int := argmaxL A ref
+  let deltas := temp.map (fun t => (argmaxL A (correlateSame A t ref) : Int) - refMax)
+  let first := deltas.headD 0
+  List.zipWith (fun c dl => rollInt c (-(dl - first))) cs deltas
+
+def ndalign (arange : Nat → List κ) (d : Data κ α) (dim : String) : Except Err (Data κ α) := do
+  if dim ∉ d.dims then .error .value else
+  let r ← d.bracketAll arange dim (ndalignCols A)
+  .ok (r.addHist "ndalign" ["dim"])
+
 /-- the discrete Fourier transform of x zero-filled to n points; `tw m` = ω^m -/
 def dftList (tw : Nat → α) (n : Nat) (x : List α) : List α :=
   (List.range n).map (fun k =>
